@@ -1,6 +1,7 @@
 import Ivg.Lemmas.FitQ
 import Ivg.Lemmas.Fit32c
 import Ivg.Gen.Tie.MiscFields
+import Ivg.Gen.Tie.Code.Fit
 import Ivg.Obligations
 /-!
 # C12 — aspect-preserving fitting (`ViewBox.AspectMeet` / `AspectSlice` / `Size`)
@@ -397,4 +398,8 @@ end Ivg.Props.C12
   Ivg.Props.C12.returned_size_near_slice,
   Ivg.Props.C12.slice_far_right_covered,
   Ivg.Props.C12.slice_overflow_nan,
-  Ivg.Gen.Tie.viewBox_fields_tie]
+  Ivg.Gen.Tie.viewBox_fields_tie,
+  -- regenerated code (translator) = model, for all inputs: ivg.go Size/AspectMeet/AspectSlice
+  Ivg.Gen.Tie.size_code_tie,
+  Ivg.Gen.Tie.aspectMeet_code_tie,
+  Ivg.Gen.Tie.aspectSlice_code_tie]
